@@ -28,6 +28,7 @@ MIN_REACH = {
     "batches_with_numpy_scalar_arguments": {"quick": 2, "thorough": 200},
     "contract_evals_in_domain": {"quick": 15000, "thorough": 1500000},
     "via_repr_or_estimate": {"quick": 50, "thorough": 500},
+    "repr_strings_read_back": {"quick": 30, "thorough": 300},
 }
 TIME_BUDGET = {"quick": 200, "thorough": 3000}
 BATCH = 1000
@@ -185,8 +186,19 @@ def run_case(ctx, case):
             mu = rng.choice([1.0, -1.0]) * 10 ** rng.uniform(-8, 8)
             rs.update_from_it([mu * (1 + 10 ** rng.uniform(-9, 0) * rng.gauss(0, 1)) for _ in range(rng.randint(2, 30))])
             if rs.err > 0:
-                repr(rs)
+                text = repr(rs)
                 ctx.count("via_repr_or_estimate")
+                # what repr shows for the mean IS that string: read it back against the mean and its error
+                import re as _re
+                m_ = _re.match(r"RunningStatistics\(mean=(.*), count=(\d+)\)$", text)
+                d_ = "not of the form RunningStatistics(mean=<value(error)>, count=<n>)" if not m_ else \
+                    contracts.judge_format(float(rs.mean), float(rs.err), m_.group(1))
+                ctx.count("repr_strings_read_back")
+                if d_:
+                    ctx.violation({"gen": "explicit", "pairs": [[float(rs.mean).hex(), float(rs.err).hex()]], "x": repr(float(rs.mean)),
+                                   "err": repr(float(rs.err)), "result": text},
+                                  "repr(RunningStatistics) = %r does not read back as mean %r and error %r: %s" % (text, float(rs.mean), float(rs.err), d_),
+                                  {"api": "format_number_with_error", "oracle": "reads-back", "site": "repr"})
         with quiet():
             r = ctx.rng("est", case["batch"])
             xyzpy.estimate_from_repeats(lambda: 3.0 + r.gauss(0, 0.5), rtol=0.05, verbosity=2, max_samples=60)
